@@ -9,8 +9,8 @@
 (*   C19 collateral equation                                                          *)
 EXTENDS LedgerRules, TraceLib
 F == INSTANCE Fees
-VARIABLES l, env, pp, keys, byron, balanced, feeReq, lastTx, colSt, colPct, scripts, attach, sdhFresh
-vars == <<l, env, pp, keys, byron, balanced, feeReq, lastTx, colSt, colPct, scripts, attach, sdhFresh>>
+VARIABLES l, env, pp, keys, byron, balanced, feeReq, lastTx, colSt, colPct, scripts, attach, sdhFresh, rereg
+vars == <<l, env, pp, keys, byron, balanced, feeReq, lastTx, colSt, colPct, scripts, attach, sdhFresh, rereg>>
 \* ---- addresses (structure only; the full classification is Address.tla, C11)
 IsByronAddr(a) == a # <<>> /\ a[1] \div 16 = 8
 \* Shelley address with a key payment credential: header types 0,2 (base), 4 (pointer), 6 (enterprise); bit 4 set = script
@@ -62,7 +62,7 @@ Reset(e) ==
   /\ balanced' = FALSE /\ feeReq' = <<"none">> /\ lastTx' = <<>> /\ colSt' = "unset" /\ colPct' = <<>>
   \* script table: bytes -> hash (re-checked with hashlib by the orchestrator); redeemer attachments per purpose
   /\ scripts' = IF Has(e, "scripts") THEN [b \in {e.scripts[i].bytes : i \in 1..Len(e.scripts)} |-> (CHOOSE x \in {e.scripts[i] : i \in 1..Len(e.scripts)} : x.bytes = b)] ELSE <<>>
-  /\ attach' = [p \in 0..4 |-> {}] /\ sdhFresh' = <<>>
+  /\ attach' = [p \in 0..4 |-> {}] /\ sdhFresh' = <<>> /\ rereg' = FALSE
 Balancing == {"AddChange", "AddInputsFromAndChange", "AddInputsFromAndChangeWithCollateralReturn"}
 ColHelpers == {"SetCollateralReturnAndTotal", "SetTotalCollateralAndReturn", "AddInputsFromAndChangeWithCollateralReturn"}
 Op(e) ==
@@ -74,14 +74,18 @@ Op(e) ==
   /\ colSt' = (IF e.op \in ColHelpers THEN (IF Has(e.r, "ok") THEN "helper" ELSE IF colSt \in {"unset", "failed"} THEN "failed" ELSE colSt)
                ELSE IF e.op \in {"SetCollateralReturn", "SetTotalCollateral", "AddCollateral"} /\ Has(e.r, "ok") THEN "raw" ELSE colSt)
   \* redeemer attachments: spends accumulate, the other purposes are replaced by the last successful Set* call
-  /\ attach' = (IF ~Has(e.r, "ok") \/ ~Has(e.r, "attach") THEN attach
+  /\ attach' = (IF Has(e.r, "ok") /\ e.op = "AddInput" /\ Has(e, "item") THEN [attach EXCEPT ![0] = {a \in @ : a.item # e.item}]     \* now a regular input: no script use
+                ELSE IF ~Has(e.r, "ok") \/ ~Has(e.r, "attach") THEN attach
                 ELSE LET new == {e.r.attach[i] : i \in 1..Len(e.r.attach)} IN
-                     CASE e.op = "AddPlutusInput" -> [attach EXCEPT ![0] = @ \cup new]
+                     CASE e.op = "AddPlutusInput" -> [attach EXCEPT ![0] = {a \in @ : \A n \in new : a.item # n.item} \cup new]    \* re-registering an outpoint replaces its witness
                        [] e.op = "SetMint" -> [attach EXCEPT ![1] = new]
                        [] e.op = "SetCerts" -> [attach EXCEPT ![2] = new]
                        [] e.op = "SetWithdrawals" -> [attach EXCEPT ![3] = new]
                        [] e.op = "SetVotes" -> [attach EXCEPT ![4] = new]
                        [] OTHER -> attach)
+  \* an outpoint that was registered as a Plutus input is registered again (as a regular or as another Plutus input)
+  /\ rereg' = (rereg \/ (Has(e.r, "ok") /\ ((e.op = "AddInput" /\ Has(e, "item") /\ \E a \in attach[0] : a.item = e.item)
+                                          \/ (e.op = "AddPlutusInput" /\ Has(e.r, "attach") /\ \E a \in attach[0] : a.item = e.r.attach[1].item))))
   \* the script data hash is the obligation of C09 only while it was computed after the last script-related call
   /\ sdhFresh' = (IF ~Has(e.r, "ok") THEN sdhFresh
                   ELSE IF e.op = "CalcScriptDataHash" THEN <<e.langs>>
@@ -96,6 +100,15 @@ ScriptLockedAddr(a) == Len(a) >= 29 /\ (a[1] \div 16) \in {1, 3, 5, 7}
 WsScriptHashes(ws) == LET one(key) == {IF Elems(ws, key)[j].str \in DOMAIN scripts THEN scripts[Elems(ws, key)[j].str].hash ELSE <<0>> : j \in 1..Len(Elems(ws, key))} IN
                       one(3) \cup one(6) \cup one(7)
 WsNativeHashes(B, ws) == {IF Span(B, Elems(ws,1)[j]) \in DOMAIN scripts THEN scripts[Span(B, Elems(ws,1)[j])].hash ELSE <<0>> : j \in 1..Len(Elems(ws,1))}
+\* script hashes the BODY itself calls for (independent of what the harness says it attached)
+CredScript(c) == IF c.mt = 4 /\ Len(c.kids) = 2 /\ Small(c.kids[1].arg) = 1 THEN {c.kids[2].str} ELSE {}
+CertScripts(c) == IF CertKind(c) \in {0, 3, 4, 5, 6} THEN {} ELSE CredScript(c.kids[2])
+NeededScripts(body) ==
+   {SubSeq(env[InputKey(Elems(body,0)[j])].addr, 2, 29) : j \in {i \in 1..Len(Elems(body,0)) : InputKey(Elems(body,0)[i]) \in DOMAIN env /\ ScriptLockedAddr(env[InputKey(Elems(body,0)[i])].addr)}}
+   \cup MintPolicies(body)
+   \cup UNION {CertScripts(Elems(body,4)[j]) : j \in 1..Len(Elems(body,4))}
+   \cup {SubSeq(r, 2, 29) : r \in {x \in RewardAccounts(body) : (x[1] \div 16) = 15}}
+   \cup (IF HasK(body, 19) THEN LET v == GetK(body, 19) IN {v.kids[2*j-1].kids[2].str : j \in {i \in 1..(Len(v.kids) \div 2) : Small(v.kids[2*i-1].kids[1].arg) \in {1, 3}}} ELSE {})
 RefInputKeys(body) == {InputKey(Elems(body,18)[j]) : j \in 1..Len(Elems(body,18))}
 ScriptChecks(e, tx, body, ws, sc, shape) ==
   LET reds == Redeemers(ws)
@@ -132,6 +145,11 @@ ScriptChecks(e, tx, body, ws, sc, shape) ==
             atRef == Cardinality({k \in (RefInputKeys(body) \cup {InputKey(Elems(body,0)[j]) : j \in 1..Len(Elems(body,0))}) \cap DOMAIN env : env[k].rsh = h}) IN
         /\ Chk(inWs + atRef >= 1, "C18", "Built/script-not-available", sc, [rid |-> a.rid, purpose |-> a.purpose])
         /\ Chk(inWs + atRef <= 1, "C18", "Built/script-available-twice", sc, [rid |-> a.rid, purpose |-> a.purpose, inWs |-> inWs, atRef |-> atRef])
+  \* C18: every script hash the body calls for (script-locked spent outputs, policies, script credentials of certificates,
+  \* withdrawals and voters) is available in the witness set or at a reference / spent output - whatever the caller declared
+  /\ \A h \in NeededScripts(body) :
+        Chk(h \in (WsScriptHashes(ws) \cup WsNativeHashes(e.tx, ws)) \/ \E k \in (RefInputKeys(body) \cup {InputKey(Elems(body,0)[j]) : j \in 1..Len(Elems(body,0))}) \cap DOMAIN env : env[k].rsh = h,
+            "C18", "Built/script-called-for-by-the-body-not-available", sc, [hash |-> h])
   \* C18: a spent Plutus output that carries a datum hash has that datum in the witness set (or inline at a reference input)
   /\ \A a \in {x \in live : x.purpose = 0} :
         LET k == InputKey(Parse(a.item)) IN
@@ -149,11 +167,11 @@ ScriptChecks(e, tx, body, ws, sc, shape) ==
             pre == IF Len(reds) = 0 /\ HasK(ws, 4) THEN <<160>> \o datB \o <<160>>
                    ELSE redB \o datB \o LangViews(langs, CostOf) IN
         /\ Obl("C09", sc, <<"sdh", langs, Len(reds), Len(Elems(ws,4))>>)
-        /\ Emit([t |-> "HASHCHK", p |-> "C09", sig |-> "Built/script-data-hash-differs-from-emitted-witness-set", sc |-> sc, alg |-> "blake2b256", pre |-> pre, expect |-> GetK(body, 11).str]))
+        /\ Emit([t |-> "HASHCHK", p |-> "C09", sig |-> "Built/script-data-hash-differs-from-emitted-witness-set" \o (IF rereg THEN "/after-reregistration-of-a-plutus-input" ELSE ""), sc |-> sc, alg |-> "blake2b256", pre |-> pre, expect |-> GetK(body, 11).str]))
 EnvVals == [k \in DOMAIN env |-> env[k].value]
 Built(e) ==
   LET sc == e.sc tx == Parse(e.tx) IN
-  /\ UNCHANGED <<env, pp, keys, byron, balanced, feeReq, colSt, colPct, scripts, attach, sdhFresh>>
+  /\ UNCHANGED <<env, pp, keys, byron, balanced, feeReq, colSt, colPct, scripts, attach, sdhFresh, rereg>>
   /\ lastTx' = e.tx
   /\ IF IsErr(tx) \/ tx.mt # 4 \/ Len(tx.kids) # 4 THEN Fail("C03", "Built/malformed-transaction", sc, tx.why) ELSE
      LET body == tx.kids[1] ws == tx.kids[2] outs == Elems(body, 1) fee == ArgN(GetK(body, 2))
@@ -232,7 +250,7 @@ Built(e) ==
 \* changes, so the sizes follow from the span of the coin item inside the output bytes.
 CoinItem(o) == LET v == OutValItem(o) IN IF v.mt = 0 THEN v ELSE v.kids[1]
 MinAda(e) ==
-  /\ UNCHANGED <<env, pp, keys, byron, balanced, feeReq, lastTx, colSt, colPct, scripts, attach, sdhFresh>>
+  /\ UNCHANGED <<env, pp, keys, byron, balanced, feeReq, lastTx, colSt, colPct, scripts, attach, sdhFresh, rereg>>
   /\ LET sc == e.sc o == Parse(e.out) cpb == FromBE(e.cpb_n) IN
      IF IsErr(o) THEN Fail("C07", "MinAda/output-malformed", sc, o.why)
      ELSE IF Has(e.r, "panic") THEN Fail("C07", "MinAda/panic", sc, e.r.panic)
@@ -249,8 +267,8 @@ MinAda(e) ==
                  [c |-> e.r.v_n, need |-> ToBE(Mul(cpb, FromSmall(160 + size1)), 0), size |-> size1])
           /\ Chk(Leq(c, Mul(cpb, FromSmall(160 + size8))), "C07", "MinAda/result-above-the-8-byte-bound", sc,
                  [c |-> e.r.v_n, bound |-> ToBE(Mul(cpb, FromSmall(160 + size8)), 0)])
-Other(e) == UNCHANGED <<env, pp, keys, byron, balanced, feeReq, lastTx, colSt, colPct, scripts, attach, sdhFresh>>
-Init == l = 1 /\ env = <<>> /\ pp = <<>> /\ keys = <<>> /\ byron = <<>> /\ balanced = FALSE /\ feeReq = <<"none">> /\ lastTx = <<>> /\ colSt = "unset" /\ colPct = <<>> /\ scripts = <<>> /\ attach = [p \in 0..4 |-> {}] /\ sdhFresh = <<>>
+Other(e) == UNCHANGED <<env, pp, keys, byron, balanced, feeReq, lastTx, colSt, colPct, scripts, attach, sdhFresh, rereg>>
+Init == l = 1 /\ env = <<>> /\ pp = <<>> /\ keys = <<>> /\ byron = <<>> /\ balanced = FALSE /\ feeReq = <<"none">> /\ lastTx = <<>> /\ colSt = "unset" /\ colPct = <<>> /\ scripts = <<>> /\ attach = [p \in 0..4 |-> {}] /\ sdhFresh = <<>> /\ rereg = FALSE
 Next == /\ l <= Len(Rec)
         /\ LET e == Rec[l] IN
            CASE e.ev = "Reset" -> Reset(e)
